@@ -27,6 +27,33 @@ def _check(sc, mass=True, moments=False):
 
     res = H.run(sc, callbacks=[oracle, grid_watch])
     oracle.finish(res)
+    rc = sc.get("reconfigure")
+    if rc and not out.viol:
+        # the same model used again: an interfacial or grain-boundary energy is changed, the results are reset and the run repeated;
+        # the second run is judged like a first one, against the scenario with the new energies
+        import copy
+        sc2 = copy.deepcopy(sc)
+        sc2.pop("reconfigure", None)
+        m = res["model"]
+        m.clearCouplingModels()
+        if "gbe" in rc:
+            m.setGrainBoundaryEnergy(rc["gbe"])
+            sc2["gbe"] = rc["gbe"]
+        for name, gam in rc.get("gamma", {}).items():
+            m.setInterfacialEnergy(gam, phase=name)
+            for p in sc2["phases"]:
+                if p["name"] == name:
+                    p["gamma"] = gam
+        if sc.get("VmB_calls"):
+            # molar volumes set between the solve calls of the first run stay on the model: the second run starts from the scenario's values again
+            for p in sc2["phases"]:
+                m.setVolumeBeta(p["VmB"][0], p["VmB"][1], p["VmB"][2], phase=p["name"])
+        m.reset()
+        oracle2 = StepOracle(sc2, out, do_mass=mass, do_moments=moments)
+        oracle2.flags = oracle.flags
+        oracle2.flags.add("reconfigured_and_rerun")
+        res2 = H.run(sc2, callbacks=[oracle2, grid_watch], model=m, therm=res["therm"])
+        oracle2.finish(res2)
     return out
 
 
@@ -121,7 +148,7 @@ def clauses():
                     "oracle: the recorded matrix composition is exactly the configured minimum (the documented clamp); non-trivial: a non-default minimum"),
         Clause("toy_binary", lambda: scen.toy_binary_scenario(cap=400, allow_elastic=True, allow_kbeta=True), check_toy_binary, quick=240, thorough=4000, shrink=False,
                rule="generator: toy binary scenarios (1-3 phases, stoichiometric or (1 in 3) with a precipitate composition that depends on the Gibbs-Thomson energy and is then taken per class from the model's table snapshot, mean of the class edges; alloy inside/outside the two-phase field, T constant / break points / function, gamma, V_alpha/V_beta in [0.5,2] given as Vm/Va/a, five site types, four shapes, constant strain energy, PBM grid, adaptive on/off, constraint toggles, Euler/RK4, 1-3 solve calls, cap 400 steps); "
-                    "oracle per accepted step: x0 = (1-sum f) x_matrix + sum_p ratio_p F_p sum_i n_i R_i^3 x_beta; non-trivial: total precipitate fraction > 1e-6 on >= 10 steps"),
+                    "1 multi-call case in 5 sets the molar volume of a precipitate phase again between two solve calls (the oracle follows the scenario); oracle per accepted step: x0 = (1-sum f) x_matrix + sum_p ratio_p F_p sum_i n_i R_i^3 x_beta; non-trivial: total precipitate fraction > 1e-6 on >= 10 steps"),
         Clause("toy_multi", lambda: scen.toy_multi_scenario(cap=250, allow_shapes=True), check_toy_binary, quick=120, thorough=2000, shrink=False,
                rule="generator: toy ternary scenarios (1-2 stoichiometric phases with a solubility product, both solutes balanced); same oracle for every solute; non-trivial as above"),
         Clause("real_db", lambda: scen.real_scenario(cap=100), check_toy_binary, quick=24, thorough=300, shrink=False,
